@@ -591,11 +591,18 @@ Proof.
     assert (Hblk : src + size - base (ms_window ms2) <= CURRENT_MAX).
     { destruct Hcase as [[-> Hle]|[Hle _]]; [exact Hle|].
       pose proof (block_size_condition _ _ Hpo). lia. }
-    pose proof (search_effect_inv (h_params h1) ms2 (h_optFirst h1) src size Hinv2 ltac:(lia) Hblk) as Hs.
-    pose proof (search_effect_tinv (h_params h1) ms2 (h_optFirst h1) src size Hinv2 ltac:(lia) Hblk (conj Hq1 Hq2)) as Hst.
+    set (ms2c := block_mode_dict_check ms2).
+    assert (Ew : ms_window ms2c = ms_window ms2) by reflexivity.
+    assert (Hinv2c : ms_inv ms2c src CB) by exact Hinv2.
+    assert (Hblkc : src + size - base (ms_window ms2c) <= CURRENT_MAX) by (rewrite Ew; exact Hblk).
+    assert (Htc : ms_tinv ms2c src) by exact (conj Hq1 Hq2).
+    assert (Hsz : 0 < size <= BLOCKSIZE_MAX) by lia.
+    pose proof (search_effect_inv (h_params h1) ms2c (h_optFirst h1) src size Hinv2c Hsz Hblkc) as Hs.
+    pose proof (search_effect_tinv (h_params h1) ms2c (h_optFirst h1) src size Hinv2c Hsz Hblkc Htc) as Hst.
     cbv zeta in Hs, Hst.
-    destruct (block_search_effect (h_params h1) ms2 (h_optFirst h1) src size) as [ms3 first'] eqn:Es.
+    destruct (block_search_effect (h_params h1) ms2c (h_optFirst h1) src size) as [ms3 first'] eqn:Es.
     cbn [fst] in Hs, Hst. destruct Hs as (_ & Hs2 & _). destruct Hst as (Hst1 & _).
+    rewrite Ew in Hs2.
     unfold TInv. cbn [h_ms]. rewrite Hs2, Hns2, Hns1. exact Hst1.
   - (* OpFinder *)
     cbn [op_okT] in HokT. unfold curidx in HokT. cbn [step]. unfold TInv, ms_tinv.
@@ -736,7 +743,16 @@ Proof.
   - repeat constructor; unfold cparams_ok, block_ok; cbn; consts; try lia.
   - apply Inv_init. unfold cparams_ok. cbn. consts. lia.
   - apply TInv_init.
-  - cbn [hist_okT op_okT]. unfold ms_sized, tables_sized, pow2_len, curidx, tables_le, tbl_le.
-    vm_compute. repeat split; try discriminate; repeat constructor; try discriminate.
+  - (* every intermediate state is evaluated first (innermost [step] first), then the side conditions are small *)
+    cbn [hist_okT].
+    repeat match goal with
+    | |- context [step true ?h ?o] =>
+        lazymatch h with context [step] => fail | _ => idtac end;
+        let v := eval vm_compute in (step true h o) in
+        replace (step true h o) with v by (vm_compute; reflexivity)
+    end.
+    cbn [op_okT h_ms h_params ms_tables ms_window ms_hashLog3 ms_dds].
+    unfold ms_sized, tables_sized, pow2_len, curidx, tables_le, tbl_le. cbn.
+    repeat split; repeat (apply Forall_cons || apply Forall_nil); try lia; try reflexivity.
   - vm_compute. reflexivity.
 Qed.
